@@ -329,6 +329,12 @@ func (P *Program) renameForShape(ct *Contract, fn *ssa.Function, old fnShape) {
 	var pairs []string
 	for a, b := range ren {
 		pairs = append(pairs, a+"->"+b)
+		// call records of function-valued locals are named after the variable
+		// ("Counters.producer"): keep them under the name the contract uses
+		if localAlias[fn] == nil {
+			localAlias[fn] = map[string]string{}
+		}
+		localAlias[fn][b] = a
 	}
 	sort.Strings(pairs)
 	P.Rebound = append(P.Rebound, fmt.Sprintf("contract of %s: identifiers renamed %s", relName(fn), strings.Join(pairs, ", ")))
@@ -646,6 +652,17 @@ func typeRenames(pkgs []*packages.Package, shapes map[string]fnShape) map[string
 // structFieldRen: per struct ("pkgpath.Name"), fields renamed in place since the snapshot
 // (old name -> new name); consulted wherever a contract selects a field by name.
 var structFieldRen = map[string]map[string]string{}
+
+// localAlias: per function, current name of a renamed parameter, capture or local -> the name
+// it had when the ledger was frozen (the one its contract still uses)
+var localAlias = map[*ssa.Function]map[string]string{}
+
+func aliasedLocal(fn *ssa.Function, name string) string {
+	if a := localAlias[fn][name]; a != "" {
+		return a
+	}
+	return name
+}
 
 // fieldIs: does field f of struct type t answer to `name` (its own name, or the name it had
 // when the contracts were last frozen)?
